@@ -85,7 +85,9 @@ func (g jsonGrammar) texts() []string {
 	for _, s := range []string{`null`, `true`, `1`, `"a"`, ``, ` `, ` null `, " [ 1 , 2 ] ", " { \"1\" : 2 } ", "\n[]\t", "[1,2]x", "{}{}", "[1,2],", `{"1":1,}`, `[,]`, `{"a"}`, `{1:2}`, `[1 2]`,
 		`[1e400]`, `[-0]`, `[9223372036854775808]`, `["a"]`, `{"1":1}`, `{"01":1}`, `{"1":1,"01":2}`, `{"10":0,"1":0}`, `{"1":1,"10":2,"100":3}`, `{"-1":1,"1":2}`, `{"100":1,"10":2,"1":3}`, `[-1,10,100]`, `{"x":"b","a":"1","b":"2"}`, `{"a":"a","b":"a"}`, `{"1":1,"2":1}`, `[3,1,2,0]`, `[1,2,3,4,5,6,7]`,
 		// escapes and number spellings: "\u0031" IS the key "1"; 1E0, 1.0, 10e-1 are the number 1
-		`{"\u0031":1}`, `{"1":1,"\u0031":2}`, `{"\u0061":1,"a":2}`, `["\u0061"]`, `["a\nb"]`, `[1E0]`, `[1.0]`, `[10e-1]`, `[1e2]`, `{"1":1e0}`, `{"a":1,"b":2,"a":3}`, `{"2":2,"1":1,"2":3}`, "[ 1 ,\n2 ]", `{"1" :1 , "2": 2}`, `{"+1":1}`, `{"1.0":1}`, `{" 1":1}`, `[-1]`, `[0,-0]`} {
+		`{"\u0031":1}`, `{"1":1,"\u0031":2}`, `{"\u0061":1,"a":2}`, `["\u0061"]`, `["a\nb"]`, `[1E0]`, `[1.0]`, `[10e-1]`, `[1e2]`, `{"1":1e0}`, `{"a":1,"b":2,"a":3}`, `{"2":2,"1":1,"2":3}`, "[ 1 ,\n2 ]", `{"1" :1 , "2": 2}`, `{"+1":1}`, `{"1.0":1}`, `{" 1":1}`, `[-1]`, `[0,-0]`,
+		// integers that a detour through float64 would change or accept wrongly
+		`[9007199254740993]`, `[-9007199254740993,9007199254740992]`, `{"9007199254740993":1}`, `{"1":9007199254740993}`, `[9223372036854775807]`, `[-9223372036854775808]`, `[-9223372036854775809]`, `[1e18]`, `[1.5e1]`} {
 		add(s)
 	}
 	all := append([]string{}, base...)
